@@ -165,8 +165,7 @@ def export_to_csv(
 
         rows.append(row)
 
-    df = pd.DataFrame(rows)
-    df = df[header]
+    df = pd.DataFrame(rows, columns=header)
 
     # Also add a column with the track ID color
     if color_dict is not None:
@@ -196,7 +195,7 @@ def export_to_csv(
 
     if export_seg:
         # Determine maximum value in the column to assign bit depth
-        max_val = int(df[column_map["track_id"]].max())
+        max_val = int(df[column_map["track_id"]].max()) if len(df) else 0
 
         # Pick dtype based on max_val
         if max_val <= np.iinfo(np.uint8).max:
